@@ -80,16 +80,6 @@ theorem C15_ignored_required (cfg : Cfg) (L : List Leaf) (ps : List P) (t : Opti
 
 /-! ### Formula-based status -/
 
-/-- the evaluator's result on every strict formula within the stack budget, when every pattern compiles -/
-theorem formulaMajor_strict (cfg : Cfg) (L : List Leaf) (ps : List P) (f : Formula)
-    (hs : Strict f = true) (hd : depth f ≤ cfg.stack) (hL : LeavesCompile L) :
-    formulaMajor L ps cfg.stack f = .ok (majorOfFormula L (rows ps) f) := by
-  unfold formulaMajor majorOfFormula
-  rw [evaluate_eq_sem L ps hL cfg.stack f hs hd]
-  cases sem L (ps.map rowOf) f with
-  | none => simp [lift, handled]
-  | some v => cases v <;> simp [lift]
-
 /-- **C15, totality (partial).**  For every formula expression without one of the shapes recorded as known findings
     (`Strict`: every callee is a name, every `any`/`all` call has exactly one positional argument and no keyword),
     nested no deeper than the stack budget, when every pattern compiles: `update` returns Booleans, never an error,
